@@ -106,6 +106,11 @@ def make_cases():
         il = rand_axis(rng, rng.randrange(2, 6)); xl = rand_axis(rng, rng.randrange(2, 6))
         cases.append(dict(route='segy', il=il, xl=xl, dt=rng.choice(BAD[:200]), t0=pick_t0(rng), ns=rng.randrange(2, 6), i32=True,
                           post=rng.choice(['reblock', 'export'])))
+    # convert -> crop the sample axis -> export (whole-millisecond sample times, so that the start time is representable)
+    for k in range(3 if quick else 12):
+        il = rand_axis(rng, rng.randrange(2, 5)); xl = rand_axis(rng, rng.randrange(2, 5))
+        cases.append(dict(route='segy', il=il, xl=xl, dt=rng.choice([1000, 2000, 4000]), t0=rng.choice([0, -200, 48, 1000]), ns=rng.choice([130, 200, 257, 300]), i32=True,
+                          post='cropz_export', bpv=16, box=[rng.randrange(100)]))
     # cropping: axes of the cropped file = sub-ranges of the source axes (ends inside the last partial unit included)
     for k in range(8 if quick else 40):
         il = rand_axis(rng, rng.randrange(5, 12)); xl = rand_axis(rng, rng.randrange(5, 12))
@@ -147,7 +152,7 @@ def run_impl(c, d):
             out['src_il'], out['src_xl'] = out['src_il'][w[0]:w[1]], out['src_xl'][w[2]:w[3]]
             out['src_tracecount'] = len(out['src_il']) * len(out['src_xl'])
         try:
-            write_segy_sgz(sgy, p, bpv=2 if c.get('post') else 8, window=w)
+            write_segy_sgz(sgy, p, bpv=c.get('bpv', 2 if c.get('post') else 8), window=w)
         except Exception as e:
             out['raised'] = type(e).__name__ + ': ' + str(e)[:100]
             return out
@@ -187,6 +192,21 @@ def run_impl(c, d):
         out['src_tracecount'] = (i1 - i0) * (x1 - x0)
         out['crop_box'] = [a0, a1, b0, b1]
         p = q
+    if post == 'cropz_export':
+        # three steps: convert, crop the SAMPLE axis at a non-zero start, export: the exported sample axis must be the
+        # source's restricted to the crop widened to z-block boundaries (the start time travels through the cropped
+        # header and the regenerated delay).  16 bit -> z-blocks of 128 samples.
+        nz = len(out['src_z'])
+        zb = 128
+        z0 = zb * (1 + c['box'][0] % max(1, (nz - 1) // zb))
+        q = os.path.join(d, 'cropz.sgz')
+        with SgzCropper(p) as cr:
+            quiet(cr.write_cropped_file_by_indexes, q, iline_index_range=(0, len(out['src_il'])), xline_index_range=(0, len(out['src_xl'])),
+                  zslices_index_range=(z0 + 3, nz))
+        out['src_z'] = out['src_z'][z0:]
+        out['crop_z0'] = z0
+        p = q
+        post = 'export'
     if post == 'reblock':
         q = os.path.join(d, 'adv.sgz')
         with SgzConverter(p) as cv:
